@@ -291,7 +291,10 @@ def check_result(scen, Kd, Md, active, vals, vecs, k, sparse, sort, ref, log, re
             raise Violation('F1-eigenpair' + tag, {'why': 'zero or non-finite mode', 'index': i})
         r = np.linalg.norm(Kd.dot(v) - (w.real ** 2) * Md.dot(v))
         # solver precision: 1e-8 relative backward error, relaxed by ARPACK's stopping rule for tiny transformed values
-        bound = max(1e-8, 4e-26 * (w.real ** 2 + 1) if sparse else 0.0) * (nK + w.real ** 2 * nM) * nv
+        # ... and by the conditioning of the shifted matrix K + M that the sparse path factorises (masses spread over many
+        # decades): the back-transformed residual carries ~eps*cond(K+M), never accepted beyond 1e-4
+        bound = max(1e-8, 4e-26 * (w.real ** 2 + 1) if sparse else 0.0,
+                    min(1e-4, 2e-15 * ref['condKM']) if sparse else 0.0) * (nK + w.real ** 2 * nM) * nv
         if not (r <= bound):
             raise Violation('F1-eigenpair' + tag, {'why': 'K v - omega^2 M v is not zero to solver precision', 'index': i,
                                                    'omega': w.real, 'residual': float(r), 'bound': float(bound)})
